@@ -23,6 +23,8 @@ def run(ctx):
         res, f = live.walk(ctx, gp, lvl, depth, 0 if q else 4000, "model")
         fails += f
         ctx.count(res["sequences"])
+    # closure: every byte stream of EVERY length over the alphabet (driver level)
+    fails += live.closure(ctx, gp)
     ctx.cov["exhaustive_walk"] = {"graph_nodes": nn, "graph_edges": ne, "suffix_depth": depth}
     # 3. T: recorded sessions judged by the specification
     recs = live.gen_sessions(ctx, 600 if q else 6000, 2 if q else 12, ctx.seed, "model")
